@@ -161,6 +161,10 @@ def sym_setattr(ex, obj: VSym, name, val, fr):
     raise Unsupported(f"store to {name!r} of symbolic {ex.cls_name(obj.cls)} (no declared type)")
 
 
+def call_partial(ex, p, args, kwargs, fr):
+    return ex.call(p.info["f"], list(p.info["args"]) + list(args), {**p.info["kwargs"], **kwargs}, fr)
+
+
 def opaque_attr(ex, obj: VOpaque, name, fr):
     if obj.kind == "objdict":
         if name in ("update", "items", "keys", "copy"):
@@ -712,8 +716,25 @@ def _reversed(ex, args, kwargs, fr):
 
 @libfn("builtins.map")
 def _map(ex, args, kwargs, fr):
+    """map(f, it) as seen by its consumer (list(), tuple(), a for loop): elements in order; a StopIteration escaping from f
+    ends the iteration silently (iterator protocol) — the elements produced so far are all the consumer gets."""
     f = args[0]
-    return ex.st.alloc(HList([ex.call(f, [x], {}, fr) for x in ex.iterate(args[1], fr)]))
+    out = []
+    for x in ex.iterate(args[1], fr):
+        try:
+            out.append(ex.call(f, [x], {}, fr))
+        except PyExc as pe:
+            m = ex.exc_matches(pe.val, VLib("builtins.StopIteration"))
+            if (m is True) or (not isinstance(m, bool) and ex.st.branch(m)):
+                ex.st.ghost.setdefault("SWALLOWED", []).append(pe.val)
+                break
+            raise
+    return ex.st.alloc(HList(out))
+
+
+@libfn("functools.partial")
+def _partial(ex, args, kwargs, fr):
+    return VOpaque("partial", None, {"f": args[0], "args": list(args[1:]), "kwargs": dict(kwargs)})
 
 
 @libfn("builtins.hasattr")
@@ -1225,6 +1246,26 @@ def _conc_str_method(name):
 for _n in ("lower", "upper", "strip", "capitalize", "title", "lstrip", "rstrip", "removeprefix", "removesuffix", "isdigit",
            "isidentifier", "isnumeric"):
     HANDLERS["str." + _n] = _conc_str_method(_n)
+
+
+_STR_PREDS = {}
+
+
+def _sym_str_pred(name):
+    """str predicates (isidentifier, isdigit, isnumeric) of a symbolic string: an uninterpreted predicate of the text — nothing
+    is assumed about which texts satisfy it (in particular the keywords True / False / None ARE identifiers)."""
+    conc = _conc_str_method(name)
+
+    def h(ex, self_val, args, kwargs, fr):
+        if _sconc(self_val, *args):
+            return conc(ex, self_val, args, kwargs, fr)
+        f = _STR_PREDS.setdefault(name, z3.Function("py_str_" + name, z3.StringSort(), z3.BoolSort()))
+        return VBool(f(z_str(self_val.v)))
+    return h
+
+
+for _n in ("isidentifier", "isdigit", "isnumeric"):
+    HANDLERS["str." + _n] = _sym_str_pred(_n)
 
 
 @libfn("str.format")
